@@ -41,7 +41,8 @@ def gen_cases(rng, tier):
         c = I.gen_bounded(rng)
         if c["budget"][1] == 0 or c.get("mut"):
             continue
-        c["main_kind"], c["dsN"], c["pre_epoch"] = "torch", c["N"], c["pre_epoch"] or 0
+        c["main_kind"], c["pre_epoch"] = "torch", c["pre_epoch"] or 0
+        I.set_dsn(c, c["N"])
         c["perm_seed"] = rng.randint(0, 999)
         out.append(c)
         k += 1
@@ -99,6 +100,8 @@ def oracle(case, obs):
         return None  # the constructor's answer to its arguments / a checkpoint: correspondence with the model, C06
     if obs["result"] == "AssertionError" and not obs["log"]:
         return None
+    if not I.before_budget(case, e0):
+        return None  # a checkpoint at / past the budget: outside the claim
     if obs["result"] == "RUNAWAY":
         return f"stream does not end (more than {I.MAX_EVENTS} events)"
     if obs["result"] != "ok":
